@@ -5,6 +5,7 @@
 
 mod atomics;
 mod clones;
+mod collects;
 mod ctors;
 mod deser;
 mod drops;
@@ -211,6 +212,7 @@ fn main() {
     gates::emit(src, &mut out);
     viewreads::emit(src, &mut out);
     drops::emit(src, &mut out);
+    collects::emit(src, &mut out);
 
     out.push_str("\nend Lasso.Extracted\n");
     // only rewrite when changed so that lake does not rebuild dependants needlessly
